@@ -92,6 +92,25 @@ def describe(e):
             "soft": e["soft"], "hard": e["hard"], "verdict": e["verdict"], "full_validator": e.get("full"), "origin": e["origin"]}
 
 
+def classify_chain(m):
+    """published NSEC3 chain differs from the chain the specification derives from the zone"""
+    j = m["judge"]
+    miss = {nm(x["name"]): x for x in j["missing"]}
+    extra = {}
+    for x in j["extra"]:
+        for n in x["names"]:
+            extra[nm(n)] = x
+    both = sorted(set(miss) & set(extra))
+    bitmap = [n for n in both if sorted(miss[n]["types"]) != sorted(extra[n]["types"])]
+    fields = {"what": "bitmap" if bitmap else ("next" if both else "names"),
+              "published_bitmap_empty": any(not extra[n]["types"] for n in bitmap),
+              "opt_out": bool(m["event"]["oo"])}
+    detail = {"missing(expected, not published)": [{"name": n, "types": sorted(x["types"]), "next": nm(x["next"])} for n, x in sorted(miss.items())],
+              "extra(published, not expected)": [{"names": [nm(n) for n in x["names"]], "types": sorted(x["types"]),
+                                                  "next": [nm(n) for n in x["nextNames"]], "optout": x["optout"]} for x in j["extra"]]}
+    return [("published-chain-wrong", fields)], detail
+
+
 def classify(m):
     e, j = m["event"], m["judge"]
     out = []
@@ -250,13 +269,20 @@ def run(res, tier, seed):
     # ---- the monitor judges
     all_trace = os.path.join(wd, "all.trace.ndjson")
     seen = set()
-    n_server = n_events = 0
+    n_server = n_events = n_chain = 0
     with open(all_trace, "w") as out:
         for src, t in traces:
             pending = None
             for e in vlib.read_ndjson(t):
                 if e["ev"] == "reset":
                     pending = e
+                    continue
+                if e["ev"] == "chain":
+                    n_chain += 1
+                    if pending is not None:
+                        out.write(json.dumps(pending, separators=(",", ":")) + "\n")
+                        pending = None
+                    out.write(json.dumps(e, separators=(",", ":")) + "\n")
                     continue
                 n_events += 1
                 k = ev_key(e)
@@ -285,12 +311,21 @@ def run(res, tier, seed):
         "events_recorded": n_events,
         "iteration_limits": {"soft": SOFT, "hard": HARD, "parameter_sets": REAL_PARAMS},
     })
-    confirmed = {ev_key(dict(m["event"], ht=None)) for m in mism}
+    res.extra["published_chains_audited"] = n_chain
+    if not n_chain:
+        raise vlib.ToolError("no published NSEC3 chain was audited")
+    confirmed = {ev_key(dict(m["event"], ht=None)) for m in mism if m["event"]["ev"] != "chain"}
     missing = r_keys - confirmed
     if missing:
         raise vlib.ToolError(f"Gen_Nsec3 and Trace_Nsec3 disagree on {len(missing)} offered proofs, e.g. {sorted(missing)[0][:500]}")
     examples = {}
     for m in mism:
+        if m["event"]["ev"] == "chain":
+            cl, detail = classify_chain(m)
+            for cls, fields in cl:
+                res.mismatch(cls, fields, {"chain": detail, "case": m["case"]})
+                examples.setdefault(cls + ":" + fields["what"], detail)
+            continue
         cl = classify(m)
         if not cl:
             raise vlib.ToolError("monitor rejected an event without a reason: " + json.dumps(m)[:600])
